@@ -31,7 +31,7 @@ fn spec(t: Tier) -> Spec {
     Spec {
         id: "C15",
         level: "exploration",
-        rule: format!("(A) for kind in {{a,c,m}} x period in {{60 s, 86400 s}} x k in {:?} (and, with operands 0, 1, k-2..k+2, 2^31 only, the large k {:?} days / {:?} minutes: whole seconds above 2^24, 2^31, 2^32) x age in {{k*P-1s, k*P-1ns, k*P, k*P+1ns, k*P+1s}} (>=0) x sub-second phase of the timestamp in {:?}: the injected now() is set to (timestamp read back by lstat) + age, the two other timestamps of the file sit in other periods, a second file is one period older; every N in 0..k+2 (and 2^31) x forms N,+N,-N of the matching -Xtime / -Xmin primary is evaluated by the real find; expected = floor(age/P) ==,>,< N. (B) entry/reference pairs built so that entry.X - reference.Y is -1s,-1ns,0,+1ns,+1s for each (X,Y) in {{a,c,m}}^2 (c by ordering real metadata changes and reading back; equality of c via a hard link), at two placements (about 1000 days before/after the status-change times; for pairs not involving c also in 1969 and 1931, i.e. negative seconds with a sub-second part) and {} base phases; on every pair ALL of -newer, -anewer, -cnewer and the nine -newerXY are evaluated; expected = entry.X > reference.Y at nanosecond resolution from lstat() read back. (D) under TZ=GMT0BST,M3.5.0/1,M10.5.0 and EST5EDT (daylight-saving rules), file and now() on either side of a 2026 switch, ages of k days (or the matching minutes) plus 30 min / 23 h 30 min: -mtime/-atime/-mmin/-amin N,+N,-N around k — an age is elapsed time. Files stamped 1960, 1969-12-31T23:59:30 and 1931 with now() 22 000-25 000 days / 32 000 000 minutes later. (C) one run of the find binary against the real clock: an earlier starting point runs `sleep 4` (no time test is evaluated before that: they are guarded by -path 's2/*', so a clock read lazily at the first time test shows too), entries that were 56 s / one day minus 4 s old when find started are visited afterwards and must still count as 0 minutes / 0 days old (now fixed at start). evaluation = (file, primary, operand); non-trivial = age within 1 s of a period boundary (A) / the pair's controlled difference concerns that primary's X,Y (B)", ks(t), big_ks(t, DAY), big_ks(t, 60), phases(t), phases(t).len()),
+        rule: format!("(A) for kind in {{a,c,m}} x period in {{60 s, 86400 s}} x k in {:?} (and, with operands 0, 1, k-2..k+2, 2^31 only, the large k {:?} days / {:?} minutes: whole seconds above 2^24, 2^31, 2^32) x age in {{k*P-1s, k*P-1ns, k*P, k*P+1ns, k*P+1s}} (>=0) x sub-second phase of the timestamp in {:?}: the injected now() is set to (timestamp read back by lstat) + age, the two other timestamps of the file sit in other periods, a second file is one period older; every N in 0..k+2 (and 2^31) x forms N,+N,-N of the matching -Xtime / -Xmin primary is evaluated by the real find; expected = floor(age/P) ==,>,< N. (B) entry/reference pairs built so that entry.X - reference.Y is -1s,-1ns,0,+1ns,+1s for each (X,Y) in {{a,c,m}}^2 (c by ordering real metadata changes and reading back; equality of c via a hard link), at two placements (about 1000 days before/after the status-change times; for pairs not involving c also in 1969 and 1931, i.e. negative seconds with a sub-second part) and {} base phases; on every pair ALL of -newer, -anewer, -cnewer and the nine -newerXY are evaluated; expected = entry.X > reference.Y at nanosecond resolution from lstat() read back. (D) under TZ=GMT0BST,M3.5.0/1,M10.5.0 and EST5EDT (daylight-saving rules), file and now() on either side of a 2026 switch, ages of k days (or the matching minutes) plus 30 min / 23 h 30 min: -mtime/-atime/-mmin/-amin N,+N,-N around k — an age is elapsed time. Files stamped 1960, 1969-12-31T23:59:30 and 1931 with now() 22 000-25 000 days / 32 000 000 minutes later. (C) one run of the find binary against the real clock: an earlier starting point runs `sleep 4` (no time test is evaluated before that: they are guarded by -path 's2/*', so a clock read lazily at the first time test shows too), entries that were 56 s / one day minus 4 s old when find started are visited afterwards and must still count as 0 minutes / 0 days old (now fixed at start). (E) references whose names begin or end with blanks (ASCII, U+00A0, U+2003, U+3000), a tab or a newline, stamped 2020, next to a look-alike without them stamped 2010, entry stamped 2015: -newer/-anewer/-newermm/-neweram/-newerma false. (F) a file whose path exceeds PATH_MAX under an earlier starting point: the entries after it and a later starting point are still tested on their own timestamps (eight spellings). evaluation = (file, primary, operand); non-trivial = age within 1 s of a period boundary (A) / the pair's controlled difference concerns that primary's X,Y (B)", ks(t), big_ks(t, DAY), big_ks(t, 60), phases(t), phases(t).len()),
         bound: json!({"k": ks(t), "periods": [60, 86400], "deltas_ns": [-1_000_000_000i64, -1, 0, 1, 1_000_000_000i64], "xy": "a,c,m squared + -newer -anewer -cnewer"}),
         assumptions: vec![
             "-daystart, -newerXt, -newerB?, negative ages are outside the statement".into(),
@@ -548,6 +548,85 @@ fn part_c(ctx: &mut Ctx) {
     }
 }
 
+/// (E) The reference operand of the -newer family is a file name, used byte for byte: references whose
+/// names begin or end with blanks (ASCII and U+00A0 / U+3000) or a newline, each stamped 2020, next to
+/// a look-alike without the blanks stamped 2010; the entry is stamped 2015 — not newer than the named
+/// reference, newer than the look-alike. (F) an entry whose status cannot be read (its path is longer
+/// than PATH_MAX) under an earlier starting point: the tests on the entries that come after it, and
+/// on a later starting point, are answered as if it were not there.
+fn odd_reference_and_failed_entry(ctx: &mut Ctx) {
+    let sbx = ctx.sbx.clone();
+    let base = sbx.join("or");
+    let _ = crate::sandbox::force_remove(&base);
+    std::fs::create_dir_all(base.join("e")).unwrap();
+    std::fs::create_dir_all(base.join("refs")).unwrap();
+    let y = |year: i128| ((year - 1970) * 365 * DAY + 200 * DAY) * NS;
+    let stamp = |p: &Path, t: i128| lb::set_times(p, split(t), split(t));
+    std::fs::write(base.join("e/f"), b"").unwrap();
+    let _ = stamp(&base.join("e/f"), y(2015));
+    std::fs::write(base.join("refs/stamp"), b"").unwrap();
+    let _ = stamp(&base.join("refs/stamp"), y(2010));
+    let names = ["stamp ", " stamp", "stamp\u{3000}", "\u{a0}stamp", "stamp\n", "stamp\t", "stamp \u{2003}"];
+    for n in names {
+        std::fs::write(base.join("refs").join(n), b"").unwrap();
+        let _ = stamp(&base.join("refs").join(n), y(2020));
+    }
+    std::env::set_current_dir(&base).unwrap();
+    for n in names {
+        for prim in ["-newer", "-anewer", "-newermm", "-neweram", "-newermt-not", "-newerma"] {
+            if prim == "-newermt-not" {
+                continue;
+            }
+            let r = format!("refs/{n}");
+            let got = crate::findrun::run_find(&["e", "-type", "f", prim, &r, "-print"]);
+            ctx.rep.evaluations += 1;
+            ctx.rep.nontrivial += 1;
+            ctx.rep.count("odd_reference_cases", 1);
+            if !got.out.is_empty() || got.code != Ok(0) {
+                ctx.rep.violation(
+                    &format!("C15 {prim} REF with a reference name that begins or ends with blanks: not compared with that file"),
+                    format!("find e -type f {prim} {r:?} -print: printed {:?} status {:?} stderr {:?}; e/f is stamped 2015, the named reference 2020 (refs/stamp, stamped 2010, is another file)", String::from_utf8_lossy(&got.out), got.code, String::from_utf8_lossy(&got.err)),
+                    json!({"prop":"C15","part":"E"}),
+                );
+            }
+        }
+    }
+    // (F)
+    std::fs::create_dir_all(base.join("top")).unwrap();
+    std::fs::create_dir_all(base.join("other")).unwrap();
+    std::fs::write(base.join("other/n"), b"").unwrap();
+    std::fs::write(base.join("top/zlast"), b"").unwrap();
+    let comp = "d".repeat(250);
+    std::env::set_current_dir(base.join("top")).unwrap();
+    let mut ok = true;
+    for _ in 0..16 {
+        ok &= std::fs::create_dir(&comp).is_ok() && std::env::set_current_dir(&comp).is_ok();
+    }
+    ok &= std::fs::write("f".repeat(100), b"").is_ok();
+    std::env::set_current_dir(&base).unwrap();
+    if !ok {
+        ctx.rep.machinery("could not build the over-long path".into());
+    } else {
+        for prim in ["-newer", "-anewer", "-cnewer", "-newermm", "-neweram", "-newercm", "-newerac", "-newercc"] {
+            let got = crate::findrun::run_find(&["top", "other", "-sorted", prim, "refs/stamp", "-type", "f", "-printf", "%f\n"]);
+            ctx.rep.evaluations += 1;
+            ctx.rep.nontrivial += 1;
+            ctx.rep.count("failed_entry_cases", 1);
+            let lines: Vec<String> = String::from_utf8_lossy(&got.out).lines().map(String::from).collect();
+            // top/zlast and other/n were written just now: newer than a file stamped 2010 by every timestamp
+            if got.panicked() || !lines.contains(&"zlast".to_string()) || !lines.contains(&"n".to_string()) {
+                ctx.rep.violation(
+                    &format!("C15 {prim}: after an entry whose status cannot be read, later entries are not tested on their own timestamps"),
+                    format!("find top other -sorted {prim} refs/stamp -type f -printf '%f\\n' (top holds a file whose path exceeds PATH_MAX): printed {:?}, status {:?}; top/zlast and other/n are newer than the reference", lines, got.code),
+                    json!({"prop":"C15","part":"E"}),
+                );
+            }
+        }
+    }
+    std::env::set_current_dir(&sbx).unwrap();
+    let _ = crate::sandbox::force_remove(&base);
+}
+
 fn run(ctx: &mut Ctx) {
     pre_epoch_ages(ctx);
     part_a(ctx);
@@ -558,6 +637,9 @@ fn run(ctx: &mut Ctx) {
     if ctx.shard == 1 % ctx.nshards {
         dst_slice(ctx);
     }
+    if ctx.shard == 2 % ctx.nshards {
+        odd_reference_and_failed_entry(ctx);
+    }
 }
 
 fn replay(case: &Value, ctx: &mut Ctx) -> Option<String> {
@@ -565,6 +647,10 @@ fn replay(case: &Value, ctx: &mut Ctx) -> Option<String> {
     let before = ctx.rep.violations.len();
     if case["part"] == "DST" {
         dst_slice(ctx);
+        return ctx.rep.violations.keys().next().cloned();
+    }
+    if case["part"] == "E" {
+        odd_reference_and_failed_entry(ctx);
         return ctx.rep.violations.keys().next().cloned();
     }
     if case["part"] == "C" {
